@@ -355,6 +355,8 @@ def r8_fill_count_restart(ck, P):
             ck.incomplete(R, '%s: no path to the next sample row found' % where)
         elif bad:
             ck.violation(R, f.name, 'row count after a whole-span write-out', 'after the pending span has been written out with its full weight (%s) the row count can reach the next sample row as its old value plus something instead of being restarted: the new span inherits rows it did not cover and is later added with 2x, 3x ... the weight' % fl.loc(), fl.loc())
+        elif any(v[1] not in (0, 1) for v in finals):
+            ck.violation(R, f.name, 'row count after a whole-span write-out', 'after the pending span has been written out (%s) the row count reaches the next sample row as %s: the span just started has been covered by exactly one sample row (or there is none: 0), so it is later added with a multiple of its weight' % (fl.loc(), sorted({v[1] for v in finals})), fl.loc())
         else:
             ck.ok(R, where, 'fill_size restarts at %s' % sorted({v[1] for v in finals}))
 
@@ -551,3 +553,58 @@ def r10_row_weight_constant(ck, P):
                 ck.violation(R, f.name, 'weight of the deferred span at %s (%s)' % (val[2].loc(), un), 'rasterize_edges_8 writes the deferred span (its length comes from fill_end - fill_start) out with a weight that is not fill_size * N_X_FRAC (8): the rows accumulated in fill_size are lost, the interior of the span is under-covered and a shape no longer equals the sum of its slices', val[2].loc())
             else:
                 ck.ok(R, where)
+
+
+def r14_bottom_clamp_siblings(ck, P, rid='C12-R14'):
+    """sibling agreement: pixman_add_traps and pixman_rasterize_trapezoid cut a shape that reaches below the image at the same place - the
+    last 16.16 coordinate whose integer part is still a row of the image, (height << 16) - 1; pixman_sample_floor_y then finds the last
+    sample row of the last image row."""
+    from .sampling import _lin
+    R = ck.rule(rid, 'wherever pixman-trap.c replaces a bottom coordinate because its integer part is not below the image height (pixman_fixed_to_int (b) >= height), the replacement is (height << 16) - 1, the largest coordinate inside the last row, in every function that does so: pixman_int_to_fixed (height - 1) is the top of the last row, and the sample rows of that row are lost', floor=2)
+    u = P.units.get('pixman-trap.c')
+    if u is None:
+        raise AnalysisBroken('pixman-trap.c not compiled')
+    n = 0
+    for fn, f in sorted(u.functions.items()):
+        for b in f.blocks:
+            t = b.term
+            if t.op != 'br' or not t.a:
+                continue
+            c, p, ops = f.cond(t.a[0])
+            if c is None or c.op != 'icmp' or p not in ('sge', 'sgt', 'slt', 'sle'):
+                continue
+            hs = [o for o in ops if f.v(f.strip_casts(o)) is not None and f.v(f.strip_casts(o)).op == 'load' and f.last_field(f.path(f.v(f.strip_casts(o)).a[0])) == 'bits_image.height']
+            sh = [o for o in ops if f.v(o) is not None and f.v(o).op == 'ashr' and f.v(o).a[1][0] == 'c' and int(f.v(o).a[1][1]) == 16]
+            if len(hs) != 1 or len(sh) != 1:
+                continue
+            # the side on which the coordinate is at or beyond the height
+            beyond_is_true = (p in ('sge', 'sgt')) == (ops.index(sh[0]) == 0)
+            side = t.d['succ'][0] if beyond_is_true else t.d['succ'][1]
+            H = f.strip_casts(hs[0])
+            # the value that replaces the coordinate: the phi operand arriving from that side
+            repl = None
+            for blk in f.blocks:
+                for x in blk.insts:
+                    if x.op != 'phi':
+                        continue
+                    for a, bb in zip(x.a, x.d['bb']):
+                        if bb == side or (bb == b.id and blk.id == side):
+                            orig = f.v(sh[0]).a[0]
+                            others = [q for q, b2 in zip(x.a, x.d['bb']) if b2 != bb]
+                            if any(q == orig for q in others):
+                                repl = a
+            if repl is None:
+                continue
+            n += 1; ck.saw(f)
+            lf = _lin(f, repl)
+            key = ('v', H[1]) if H[0] == 'v' else tuple(H)
+            want = {key: 65536, 1: -1}
+            where = '%s: bottom replaced at %s' % (fn, t.loc())
+            if lf == want:
+                ck.ok(R, where, '(height << 16) - 1')
+            else:
+                def fmt(l):
+                    return ' + '.join('%d%s' % (v, '' if k == 1 else '*height' if k == key else '*?') for k, v in sorted((l or {}).items(), key=repr)) or '0'
+                ck.violation(R, fn, 'bottom clamp', '%s replaces a bottom coordinate that lies at or below the image height by %s instead of 65536*height - 1: the shape is cut at the top of the last row (or elsewhere), so the sample rows inside the last image row get no coverage and the function disagrees with its sibling for the same shape' % (fn, fmt(lf)), t.loc())
+    if n == 0:
+        raise AnalysisBroken('%s: no clamp of a bottom coordinate against the image height found in pixman-trap.c' % rid)
